@@ -4,9 +4,11 @@ package main
 
 import (
 	"fmt"
+	"go/ast"
 	"go/constant"
 	"go/token"
 	"go/types"
+	"sort"
 	"strings"
 
 	"golang.org/x/tools/go/ssa"
@@ -19,7 +21,7 @@ func init() {
 		Technique: "abstract interpretation of every Update and of every _deploy with isUpdate fixed to true: gate entailment, version-bound facts at every effect and exit, write-set inclusion in the migration table with per-entry version guards, move/re-visit rules over the key schemas of the migration loops",
 		Explanation: "D1 all 11 Update methods call management.update only under the documented majority (committee, resp. the NeoFS Alphabet designated for the next block for neofs/processing) and pass AppendVersion(data), i.e. the running Version constant appended. " +
 			"D2 every _deploy(isUpdate = true) establishes PrevVersion ≤ v < Version for v = the last element of data at every effect and at every normal exit; PrevVersion < Version. D3 the update side never reaches the fresh-deploy initialisation and its write set is contained in the migration table (DESIGN App. C), each entry under its version guard. " +
-			"D4 migrations are moves — Put(prefix‖key, value) and Delete(key) of the same scanned item — selected by key length, and re-visit safe (the inserted keys have a length that is not selected); the in-place rewrites (netmap, nns) store values derived from the scanned value under the scanned key. D5 a migration step is gone round only with version ≥ its recorded layout-change version (skip-edge rule). D6 index-keyed in-place rewrites run over the stored count. M: every documented migration step whose layout-change version lies above PrevVersion is reachable; migration loops end only on exhaustion.",
+			"D4 migrations are moves — Put(prefix‖key, value) and Delete(key) of the same scanned item — selected by key length, and re-visit safe (the inserted keys have a length that is not selected); the in-place rewrites (netmap, nns) store values derived from the scanned value under the scanned key. D5 a migration step is gone round only with version ≥ its recorded layout-change version (skip-edge rule). D6 index-keyed in-place rewrites run over the stored count. M: every documented migration step whose layout-change version lies above PrevVersion is reachable; migration loops end only on exhaustion. R6: Version and PrevVersion are linear forms with equal weights over disjoint declared components, every declared component enters one of them.",
 		NotCovered: "preservation of the read API for arbitrary prior storages (value level); behaviour of the native management contract.",
 		Run:        runC16,
 	})
@@ -76,6 +78,7 @@ func runC16(cx *CheckCtx) {
 		return
 	}
 	cx.decide(prev < version, "version-bounds", "common.PrevVersion<Version", fmt.Sprintf("%d < %d", prev, version), fmt.Sprintf("PrevVersion (%d) is not below Version (%d): no deployed version can be updated", prev, version), "common/version.go")
+	checkVersionComponents(cx)
 	for _, cn := range w.CNames {
 		_ = w.Contracts[cn]
 		// ---- D1 Update
@@ -381,4 +384,132 @@ func checkMoves(cx *CheckCtx, a *Analysis, cn string) {
 		cx.decide(okL, "migration-move", skey+"/revisit", fmt.Sprintf("selected by len(key) == %d; inserted keys have length %d which is not selected", m.L, m.L+1), "the migration selects entries by a key length that its own inserted keys can have (or by none): entries are migrated twice when the scan reaches them", m.put.Where(w))
 	}
 	_ = tb
+}
+
+// checkVersionComponents: common.Version and common.PrevVersion are each
+// composed from their *own* declared triple: both are linear forms over
+// package constants with the same multiset of weights, they share no
+// component, and no integer constant declared beside them in the same const
+// block is left out of both (a "prev" component that is declared but unused
+// means the oldest supported version silently follows the current triple).
+func checkVersionComponents(cx *CheckCtx) {
+	w := cx.W
+	p := w.ByPath[modPrefix+"common"]
+	if p == nil {
+		return
+	}
+	type lin map[types.Object]int64
+	var eval func(e ast.Expr) (lin, int64, bool) // components, constant part
+	eval = func(e ast.Expr) (lin, int64, bool) {
+		switch x := ast.Unparen(e).(type) {
+		case *ast.BasicLit:
+			if tv, ok := p.TypesInfo.Types[x]; ok && tv.Value != nil {
+				v, exact := constant.Int64Val(tv.Value)
+				return lin{}, v, exact
+			}
+		case *ast.Ident:
+			if o, ok := p.TypesInfo.Uses[x].(*types.Const); ok && o.Pkg() == p.Types {
+				return lin{o: 1}, 0, true
+			}
+			if tv, ok := p.TypesInfo.Types[x]; ok && tv.Value != nil {
+				v, exact := constant.Int64Val(tv.Value)
+				return lin{}, v, exact
+			}
+		case *ast.BinaryExpr:
+			a, ca, ok1 := eval(x.X)
+			b, cb, ok2 := eval(x.Y)
+			if !ok1 || !ok2 {
+				return nil, 0, false
+			}
+			switch x.Op {
+			case token.ADD:
+				for o, c := range b {
+					a[o] += c
+				}
+				return a, ca + cb, true
+			case token.MUL:
+				if len(a) > 0 && len(b) > 0 {
+					return nil, 0, false
+				}
+				if len(a) == 0 {
+					a, b, ca, cb = b, a, cb, ca
+				}
+				for o := range a {
+					a[o] *= cb
+				}
+				return a, ca * cb, true
+			}
+		}
+		return nil, 0, false
+	}
+	var block *ast.GenDecl
+	exprs := map[string]ast.Expr{}
+	for _, f := range p.Syntax {
+		for _, d := range f.Decls {
+			gd, ok := d.(*ast.GenDecl)
+			if !ok || gd.Tok != token.CONST {
+				continue
+			}
+			for _, s := range gd.Specs {
+				vs := s.(*ast.ValueSpec)
+				for i, n := range vs.Names {
+					if (n.Name == "Version" || n.Name == "PrevVersion") && i < len(vs.Values) {
+						exprs[n.Name] = vs.Values[i]
+						block = gd
+					}
+				}
+			}
+		}
+	}
+	if exprs["Version"] == nil || exprs["PrevVersion"] == nil {
+		cx.undecided("anchor", "common.Version", "the declarations of common.Version / common.PrevVersion have no value expression", "")
+		return
+	}
+	lv, _, ok1 := eval(exprs["Version"])
+	lp, _, ok2 := eval(exprs["PrevVersion"])
+	if !ok1 || !ok2 {
+		cx.undecided("version-components", "common.Version", "Version / PrevVersion are not linear forms over package constants any more: the composition cannot be compared", w.pos(exprs["Version"].Pos()))
+		return
+	}
+	if len(lv) == 0 && len(lp) == 0 {
+		cx.holds("version-components", "common.Version", "both versions are written as plain literals: nothing to compare")
+		return
+	}
+	weights := func(l lin) string {
+		var ws []int64
+		for _, c := range l {
+			ws = append(ws, c)
+		}
+		sort.Slice(ws, func(i, j int) bool { return ws[i] < ws[j] })
+		return fmt.Sprint(ws)
+	}
+	var bad []string
+	if weights(lv) != weights(lp) {
+		bad = append(bad, fmt.Sprintf("Version weighs its components %s, PrevVersion %s", weights(lv), weights(lp)))
+	}
+	for o := range lp {
+		if _, shared := lv[o]; shared {
+			bad = append(bad, fmt.Sprintf("PrevVersion is composed from %s, a component of the *current* version", o.Name()))
+		}
+	}
+	if block != nil {
+		for _, s := range block.Specs {
+			vs := s.(*ast.ValueSpec)
+			for _, n := range vs.Names {
+				o, ok := p.TypesInfo.Defs[n].(*types.Const)
+				if !ok || n.IsExported() || o.Val().Kind() != constant.Int {
+					continue
+				}
+				if _, a := lv[o]; a {
+					continue
+				}
+				if _, b := lp[o]; b {
+					continue
+				}
+				bad = append(bad, fmt.Sprintf("%s is declared beside the versions and enters neither", n.Name))
+			}
+		}
+	}
+	sort.Strings(bad)
+	cx.decide(len(bad) == 0, "version-components", "common.PrevVersion", fmt.Sprintf("Version and PrevVersion are linear forms with weights %s over disjoint components, every declared component enters one of them", weights(lv)), "the oldest supported version is not composed from its own declared triple: "+strings.Join(bad, "; ")+" — the lower bound of CheckVersion is not the documented one (updates from unsupported releases run, or supported ones are refused)", w.pos(exprs["PrevVersion"].Pos()))
 }
